@@ -22,6 +22,8 @@ import Pandora.Proofs.C03Fine
 import Pandora.Spec.C03
 import Pandora.Bridge.InstLoop
 import Pandora.Bridge.C03DoAt
+import Pandora.Proofs.C03Await
+import Pandora.Bridge.C03Await
 
 namespace Pandora.Props.C03
 open Pandora.Model.C03 Pandora.Proofs.C03
@@ -325,6 +327,60 @@ theorem C03_source_leaf_drain (duration n : Int) (doAt : Int → Int) (now : Int
       Pandora.Gen.Schedule.doAtSchedule_Next now s = .ok ((tx, decide (k < n.toNat)), s') :=
   Pandora.Bridge.C03DoAt.drain duration n doAt now k
 
+/-! ### the pool's own bookkeeping: when is a pool over (`awaitRun`, `Pandora.Model.C03Await`) -/
+
+section Await
+open Pandora.Model.C03Await Pandora.Proofs.C03Await
+
+/-- **a pool ends only when every started instance has returned**: after ANY sequence of results (provider,
+aggregator, start, run results of instances, in any order, any number, with or without errors) — the run context of the
+instances has been cancelled by the bookkeeping at most once, and only with the start result in and at least as many
+run results awaited as instances were started; the loop is over exactly when all four kinds of results are in, and then
+`awaited ≥ started` -/
+theorem C03_await_no_early_end (rs : List Res) (s : ASt) (h : arun ainit rs = some s) :
+    s.runCancels ≤ 1 ∧
+    (s.runCancels = 1 → s.startOpen = false ∧ s.started ≤ (s.awaited : Int)) ∧
+    (s.over = true ↔ (s.provOpen = false ∧ s.aggrOpen = false ∧ s.startOpen = false ∧ s.runOpen = false)) ∧
+    (s.over = true → s.started ≤ (s.awaited : Int)) := by
+  have hi := reach_inv h
+  have hc := hi.cancels
+  refine ⟨by split at hc <;> omega, ?_, over_iff hi, ?_⟩
+  · intro h1
+    have hro : s.runOpen = false := by
+      cases hr : s.runOpen with
+      | false => rfl
+      | true => rw [hr] at hc; simp at hc; omega
+    exact hi.closed.mp hro
+  · intro ho
+    exact (hi.closed.mp ((over_iff hi).mp ho).2.2.2).2
+
+/-- **… and it does end then**: for every number `n` of started instances and every ORDER of a complete set of results
+(one of the provider, one of the aggregator, the start result announcing `n`, one run result per instance) no result is
+refused (no "send on closed channel"), the loop ends, exactly `n` instances have been awaited -/
+theorem C03_await_ends (n : Nat) (rs : List Res) (h : Complete n rs) :
+    ∃ s, arun ainit rs = some s ∧ s.over = true ∧ s.awaited = n ∧ s.started = (n : Int) :=
+  complete_from_init h
+
+/-- the start of further instances is cancelled by the bookkeeping only for out-of-ammo results (never the run context:
+`C03_await_no_early_end`) -/
+theorem C03_await_start_cancel (rs : List Res) (s : ASt) (h : arun ainit rs = some s) :
+    s.startCancels ≤ rs.countP (fun r => r.chan == .run && r.outOfAmmo) := by
+  have := startCancels_le rs ainit s h
+  simpa [ainit] using this
+
+/-- the `case` bodies of `awaitRun`, the body and test of `checkAllInstancesAreFinished` and the initial counters
+REGENERATED from the current source do what `astep` does, for every state and every result -/
+theorem C03_source_await (s : ASt) (r : Res) :
+    stepBy Pandora.Gen.InstLoop.awaitCase Pandora.Gen.InstLoop.awaitCheckCond Pandora.Gen.InstLoop.awaitCheckBody s r =
+      (astep s r).map (fun s' => (s', false)) ∧
+    Pandora.Gen.InstLoop.awaitInitToWait = (ainit.toWait : Int) ∧ Pandora.Gen.InstLoop.awaitInitStarted = ainit.started ∧
+    Pandora.Gen.InstLoop.awaitLoop = "for $.toWait > 0 { select }" ∧
+    Pandora.Gen.InstLoop.awaitStartFinished = "$.startRes == nil" :=
+  ⟨Pandora.Bridge.C03Await.await_step_eq s r, Pandora.Bridge.C03Await.await_init_eq.1, Pandora.Bridge.C03Await.await_init_eq.2,
+   Pandora.Bridge.C03Await.await_loop_eq, Pandora.Bridge.C03Await.await_startFinished_eq⟩
+
+end Await
+
 /-! ### non-vacuity: each hypothesis is met by a concrete non-trivial run -/
 
 -- shared once(1), 2 ammo, two instances started one after the other; the second acquires an item that goes unfired;
@@ -392,6 +448,34 @@ example : Pandora.Model.C03Fine.frun ⟨false, 1, none, false, 1⟩ (Pandora.Mod
 -- `C03_source_leaf_next`: a new regenerated leaf has consistent flags
 example : Pandora.Bridge.C03DoAt.Flags (Pandora.Gen.Schedule.NewDoAtSchedule 0 3 (fun _ => 0)) :=
   (Pandora.Bridge.C03DoAt.new_tokens 0 3 (fun _ => 0)).2
+
+-- `C03_await_ends`: two instances; the first runs out of ammo BEFORE the start result (the start is cancelled), the
+-- provider ends early, the start result comes after both run results: complete, over, 2 awaited, 1 start cancel
+example : Pandora.Proofs.C03Await.Complete 2
+    [{ chan := .run, outOfAmmo := true }, { chan := .provider }, { chan := .run }, { chan := .start, started := 2 },
+     { chan := .aggregator }] := by
+  refine ⟨by decide, by decide, by decide, ?_, by decide⟩
+  intro r hr hc
+  simp only [List.mem_cons, List.not_mem_nil, or_false] at hr
+  rcases hr with h | h | h | h | h <;> subst h <;> first | rfl | cases hc
+
+example : (Pandora.Model.C03Await.arun Pandora.Model.C03Await.ainit
+    [{ chan := .run, outOfAmmo := true }, { chan := .provider }, { chan := .run }, { chan := .start, started := 2 },
+     { chan := .aggregator }]).map (fun s => (s.over, s.awaited, s.startCancels, s.runCancels)) = some (true, 2, 1, 1) := by decide
+
+-- a run result after the run results were closed is refused (an instance more than the start result announced)
+example : Pandora.Model.C03Await.arun Pandora.Model.C03Await.ainit
+    [{ chan := .start, started := 1 }, { chan := .run }, { chan := .run }] = none := by decide
+
+-- the statement language can tell a wrong body: `runCancel()` where the source has `instanceStartCancel()`
+-- (out of ammo cancelling the whole run) is not `astep`
+example : Pandora.Model.C03Await.stepBy
+    (fun c => if c = .run then [.incAwaited, .ifOutOfAmmo, .ifStartOpen, .runCancel, .endIf, .elseIfBad .run, .onErr, .endIf, .checkAll]
+              else Pandora.Gen.InstLoop.awaitCase c)
+    Pandora.Gen.InstLoop.awaitCheckCond Pandora.Gen.InstLoop.awaitCheckBody Pandora.Model.C03Await.ainit
+    { chan := .run, outOfAmmo := true } ≠
+    (Pandora.Model.C03Await.astep Pandora.Model.C03Await.ainit { chan := .run, outOfAmmo := true }).map (fun s' => (s', false)) := by
+  decide
 
 -- a mutated iteration body (Wait before Acquire) is NOT accepted: the bridge obligation is falsifiable
 example : Pandora.Model.C03Loop.bodyAccepted
